@@ -357,6 +357,48 @@ gost_diff(void) {
 			failures ++;
 			break;
 		}
+		/* MAC (little-endian convention): accumulator chained over the blocks */
+		{
+			uint32_t k[8], m1 = 0, m2 = 0;
+			uint8_t mac[8];
+			vf_gost_key_words(key, k);
+			for (b = 0; b < nb; b ++)
+				vf_gost_mac_words(k, sbox, &m1, &m2, vf_gost_le32(inb + so + 8 * b),
+				    vf_gost_le32(inb + so + 8 * b + 4));
+			gost28147_blocks_mac(&ctx, inb + so, nb);
+			gost28147_final(&ctx, mac, 8);
+			if (vf_gost_le32(mac) != m1 || vf_gost_le32(mac + 4) != m2) {
+				printf("gost mac diff: it %u so %u\n", it, so);
+				failures ++;
+				break;
+			}
+		}
+		/* big-endian (RFC 8891) convention: key words and block halves big-endian */
+		{
+			uint32_t k[8], o1, o2;
+			uint8_t e[8];
+			int bad = 0;
+			gost28147_init_be(key, 32, sbox, &ctx);
+			for (i = 0; i < 8; i ++)
+				k[i] = ((uint32_t)key[4 * i] << 24) | ((uint32_t)key[4 * i + 1] << 16) |
+				    ((uint32_t)key[4 * i + 2] << 8) | key[4 * i + 3];
+			gost28147_blocks_encrypt_be(&ctx, inb + so, nb, outb + dof);
+			for (b = 0; b < nb && !bad; b ++) {
+				const uint8_t *p = inb + so + 8 * b;
+				uint32_t a1 = ((uint32_t)p[0] << 24) | ((uint32_t)p[1] << 16) | ((uint32_t)p[2] << 8) | p[3];
+				uint32_t a0 = ((uint32_t)p[4] << 24) | ((uint32_t)p[5] << 16) | ((uint32_t)p[6] << 8) | p[7];
+				vf_gost_encrypt_words(k, sbox, a0, a1, &o1, &o2);
+				e[0] = (uint8_t)(o2 >> 24); e[1] = (uint8_t)(o2 >> 16); e[2] = (uint8_t)(o2 >> 8); e[3] = (uint8_t)o2;
+				e[4] = (uint8_t)(o1 >> 24); e[5] = (uint8_t)(o1 >> 16); e[6] = (uint8_t)(o1 >> 8); e[7] = (uint8_t)o1;
+				bad = (memcmp(outb + dof + 8 * b, e, 8) != 0);
+			}
+			gost28147_blocks_decrypt_be(&ctx, outb + dof, nb, back + so);
+			if (bad || memcmp(back + so, inb + so, 8 * nb) != 0) {
+				printf("gost _be diff: it %u so %u do %u (encrypt_be %s)\n", it, so, dof, bad ? "wrong" : "ok");
+				failures ++;
+				break;
+			}
+		}
 	}
 }
 #endif
